@@ -54,7 +54,7 @@ fn @name@() {
             symbolic="all bundles (2^40)", shape="[%s%s] > [%s%s]" % ("-α" if inv_ else "α", fname(f), "-α" if inv_ else "α", fname(f)), unwind=unwind, unwindset=UNWINDSET, stubs=STUBS, cap_s=2400, weight=5))
 
     # ---------------------------------------------------------------- node alphas
-    for ni in ([[3, 6, 1, 4][seed % 4]] if tier == "quick" else range(8)):
+    for ni in ([3, [6, 1, 4, 7][seed % 4]] if tier == "quick" else range(8)):
         nd = G.NODES[ni]
         nm = "c07_node_alpha_roundtrip_%s" % nd.lower()
         hs.append(G.H(nm, "node-alpha-roundtrip", "subrule", G.T(HDR + """
